@@ -32,6 +32,8 @@ def run(chk):
     iface_cov(chk, repo, d)
     misc_cov(chk, repo, d, eq)
     layout(chk, repo, d, eq)
+    reciprocity(chk, repo, d)
+    chk.floor('R03.5', 12)
     # ---- R03.4 sibling implementation (interpreted solver package): its unit system and round trip
     from . import legacy_solver
     legacy_solver.nondimensional(chk, repo, X.Decider(seed=chk.seed, k=3), 'R03.4')
@@ -374,3 +376,86 @@ def layout(chk, repo, d, eq):
     tot = [n for n in ast.walk(mm['__init__']) if isinstance(n, ast.Assign) and ast.unparse(n.targets[0]) == 'self.total_size'] if '__init__' in mm else []
     chk.ob('R03.3', 'solution buffer holds MAX_NUM_Y * num_slices * num_ytypes values', bool(tot) and ast.unparse(tot[0].value).replace(' ', '') == 'MAX_NUM_Y*self.num_slices*self.num_ytypes', 'size expression differs',
            ms.where(tot[0]) if tot else ms.rel(), method='AST')
+
+
+# ------------------------------------------------------------------------------------------------ R03.5 reciprocity (Saito-Molodensky)
+def reciprocity(chk, repo, d):
+    """k_load = k_tidal - h_tidal, proved at formula level from the repository's own pieces:
+      (a) every ODE class conserves the bilinear concomitant W(y, z) of two solutions (C01 R01.9; re-evaluated here);
+      (b) W is continuous across internal interfaces under the interface conditions the solver imposes (C02 R02.4 shows the code imposes them):
+          solid/solid: all six y continuous; solid/dynamic liquid: y1, y2, y5, y6 continuous and y4 = 0 on the solid side;
+          static liquid: y5 continuous, y7 = y6 + (4 pi G / g) y2, y2 = rho (g y1 - y5) on the other side;
+      (c) W(tidal solution, loading solution) at the surface, with the boundary vectors of the solver's table and the Love numbers as find_love_cf extracts them,
+          equals (2l+1) R / (4 pi G) * [k_tidal - h_tidal - k_load] when g_surface = 4 pi G rho_bulk R / 3 (rho_bulk is the body's mean density).
+    W vanishes at the centre for regular solutions, hence it vanishes at the surface."""
+    mo = repo.by_path('TidalPy/RadialSolver/derivatives/odes.pyx')
+    P = SM.params(); P['K'] = X.atom('Kc', 'complex')
+    for (kind, static, incomp), cname in SM.CLASSES.items():
+        names = ts72.LAYOUT[(kind, static)]; n = len(names)
+        dy, y, fnode = SM.extract_rhs(repo, mo, cname, P, n)
+        A = SM.matrix_from(dy, n)
+        bad = SM.symplectic_defect(A, SM.symplectic_form(names, P), n, d, names)
+        chk.ob('R03.5', f'{cname}: W(tidal, loading) is constant along the radius inside a layer of this kind', not bad, f'entries of Omega\' + A^T Omega + Omega A that do not vanish: {bad[:6]}',
+               mo.where(fnode), key=f'R03.5|conserved|{cname}', method='symbolic differentiation + GF(p^2) PIT')
+    # (b) interface continuity of W
+    r = P['r']; fpG = P['fpG']; l = P['l']; L = l * (l + 1)
+    g = X.atom('g_interface', 'pos'); rho = X.atom('rho_liquid', 'pos')
+    Y = {nm: X.atom(f'Y_{nm}', 'complex') for nm in ('y1', 'y2', 'y3', 'y4', 'y5', 'y6')}
+    Z = {nm: X.atom(f'Z_{nm}', 'complex') for nm in ('y1', 'y2', 'y3', 'y4', 'y5', 'y6')}
+
+    def W(a, b, names):
+        Om = SM.symplectic_form(names, P)
+        acc = X.ZERO
+        for i, ni in enumerate(names):
+            for j, nj in enumerate(names):
+                acc = acc + a[ni] * Om[i][j] * b[nj]
+        return acc
+    solid = ts72.LAYOUT[('solid', False)]; liqd = ts72.LAYOUT[('liquid', False)]; liqs = ts72.LAYOUT[('liquid', True)]
+    # solid | dynamic liquid: y4 = 0 on the solid side, y1 y2 y5 y6 continuous
+    Ys = dict(Y); Zs = dict(Z); Ys['y4'] = X.ZERO; Zs['y4'] = X.ZERO
+    ok = d.equal(W(Ys, Zs, solid), W(Y, Z, liqd))
+    chk.ob('R03.5', 'W is continuous across a solid / dynamic-liquid interface (y1, y2, y5, y6 continuous, zero shear on the solid side)', ok, 'differs', 'TidalPy/RadialSolver/interfaces/', method='GF(p^2) PIT')
+    # X | static liquid: on the non-static side y2 = rho (g y1 - y5) (and y4 = 0 if solid); y7 = y6 + (4 pi G / g) y2; y5 continuous
+    for other, lab in ((solid, 'solid'), (liqd, 'dynamic liquid')):
+        Yo = dict(Y); Zo = dict(Z)
+        Yo['y2'] = rho * (g * Y['y1'] - Y['y5']); Zo['y2'] = rho * (g * Z['y1'] - Z['y5'])
+        Yo['y4'] = X.ZERO; Zo['y4'] = X.ZERO
+        Yst = {'y5': Y['y5'], 'y7': Y['y6'] + fpG / g * Yo['y2']}; Zst = {'y5': Z['y5'], 'y7': Z['y6'] + fpG / g * Zo['y2']}
+        ok = d.equal(W(Yo, Zo, other), W(Yst, Zst, liqs))
+        chk.ob('R03.5', f'W is continuous across a {lab} / static-liquid interface (y5 continuous, y7 = y6 + (4 pi G / g) y2, y2 = rho (g y1 - y5))', ok, 'differs', 'TidalPy/RadialSolver/interfaces/', method='GF(p^2) PIT')
+    # (c) surface: boundary vectors from the solver's table, Love numbers from find_love_cf
+    ms = repo.by_path('TidalPy/RadialSolver/solver.pyx')
+    f = need_func(ms, 'cf_radial_solver')
+    node = find_if(f, lambda n_: ast.unparse(n_.test) == 'solve_for is None')
+    if node is None:
+        raise AnalysisError('cf_radial_solver: boundary-condition table not found')
+    from .common import local_atoms_hook
+    R = X.atom('R_planet', 'pos'); rb = X.atom('rho_bulk', 'pos'); ld = X.atom('l', 'pos')
+    itb = Interp(repo, hooks={'global': local_atoms_hook(ms, f)})
+    fr = Frame(ms, 'cf_radial_solver'); bc = Arr('bc')
+    fr.vars.update({'solve_for': ('tidal', 'loading'), 'bc_pointer': bc, 'degree_l_dbl': ld, 'radius_planet_to_use': R, 'bulk_density_to_use': rb, 'max_num_solutions': 5, 'num_ytypes': 1})
+    itb.exec(node, fr)
+    if sorted(bc.store) != list(range(6)):
+        raise AnalysisError('cf_radial_solver: boundary table did not produce two condition vectors')
+    ml = repo.by_path('TidalPy/RadialSolver/love.pyx'); fl = need_func(ml, 'find_love_cf')
+    gs = X.atom('g_surface', 'pos')
+
+    def surface_solution(tag, b):
+        ys = {'y1': X.atom(f'{tag}_y1', 'complex'), 'y2': b[0], 'y3': X.atom(f'{tag}_y3', 'complex'), 'y4': b[1], 'y5': X.atom(f'{tag}_y5', 'complex'), 'y6': b[2]}
+        out = Arr('love')
+        Interp(repo).call(ml, fl, [out, Arr('s', default=lambda k, ys=ys: ys[solid[k]]), gs])
+        return ys, out.store[0], out.store[1]
+    yt, k_t, h_t = surface_solution('tidal', [bc.store[0], bc.store[1], bc.store[2]])
+    zl, k_l, h_l = surface_solution('load', [bc.store[3], bc.store[4], bc.store[5]])
+    Ps = dict(P); Ps['r'] = R; Ps['l'] = ld
+    Om = SM.symplectic_form(solid, Ps)
+    Ws = X.ZERO
+    for i, ni in enumerate(solid):
+        for j, nj in enumerate(solid):
+            Ws = Ws + yt[ni] * Om[i][j] * zl[nj]
+    Ws = X.subst(Ws, {'g_surface': fpG * rb * R / 3})
+    ref = X.subst((2 * ld + 1) * R / fpG * (k_t - h_t - k_l), {'g_surface': fpG * rb * R / 3})
+    ok = d.equal(Ws, ref)
+    chk.ob('R03.5', 'W(tidal, loading) at the surface == (2l+1) R / (4 pi G) * [k_tidal - h_tidal - k_load] with the solver\'s boundary vectors and Love-number extraction (g_surface = 4 pi G rho_bulk R / 3), '
+           'so W = 0 gives the Saito-Molodensky relation', ok, '' if ok else d.describe(Ws, ref), ms.where(node), key='R03.5|surface', method='fragment interpretation + GF(p^2) PIT')
+    chk.assume('R03.5: regular solutions (W -> 0 at the centre); rho_bulk is the mean density of the body (g_surface = 4 pi G rho_bulk R / 3); both solution types share density, gravity, moduli and frequency (they do: one set of integrated solutions, R03.3)')
